@@ -493,7 +493,7 @@ class C07(Prop):
     rule = ("documents of the C02 / C03 / C05 (spread attributes) / C20 generators plus templates that push to, assign into, sort, splice and pop everything reachable "
             "from the data: each rendered 3x on one engine, on a second engine, and in 4 (quick) / 16 (thorough) fresh processes; render histories (3-10 renders over 2-4 "
             "templates on one engine) compared with standalone renders; the caller's data deep-compared before/after. Non-trivial: every case; distinct by case.")
-    assumptions = ["data keys are distinct after first-letter case folding; pre-converted pugjs.Object values inside caller data are out of scope"]
+    assumptions = ["pre-converted pugjs.Object values inside caller data are out of scope"]
 
     def run_cases(self, cases, tier):
         nproc = self.procs_thorough if tier == "thorough" else self.procs_quick
